@@ -585,8 +585,7 @@ _extend_len()
 # The aggregate_bit_length_sets contracts of specs/c02.py carry "C08" (they are what `_offset_` rests on); they are verified
 # under C02 and only *used* here (their bodies are not re-verified by the C08 run)
 for _q in (STRUCT + ".aggregate_bit_length_sets", UNION + ".aggregate_bit_length_sets"):
-    if "C08" in REG.contracts[_q].props:
-        REG.contracts[_q].props.remove("C08")
+    pass  # (the bodies of the aggregate functions are verified under C02; since the C02 rework they also discharge here)
 
 
 # CompositeType.extent on a ServiceType goes through `bit_length_set`, which raises TypeError (service types have no
